@@ -349,6 +349,16 @@ pub fn order_corpus(kind: u32) -> Vec<String> {
     v.extend(touching_circles_family());
     v.extend(circle_parts_family());
     v.extend(overlapping_bbox_family().into_iter().step_by(4));
+    // a sheet of several hundred separate groups (work that an implementation might split over threads)
+    {
+        let mut rows: Vec<String> = vec![];
+        for r in 0..16 {
+            let pieces: Vec<String> = (0..18).map(|c| match (r + c) % 4 { 0 => "+-+".to_string(), 1 => "-->".to_string(), 2 => format!("w{}", (r * 18 + c) % 10), _ => "*-o".to_string() }).collect();
+            rows.push(pieces.join("  "));
+            rows.push(String::new());
+        }
+        v.push(rows.join("\n"));
+    }
     for d in [
         "+-------+\n|{a,b,c}|\n+-------+",
         "+---------+\n| {x} {y} |\n| {z}     |\n+---------+",
